@@ -170,11 +170,15 @@ def _flat(a, k):
     """element k of the C-order flattening of a 1-d / 2-d Arr"""
     if a.ndim == 1:
         return a.f((k,))
+    if getattr(a, 'flat_backing', None) is not None:
+        return a.flat_backing.f((k,))
     n1 = to_z3(a.shape[1])
     return a.f((k / n1, k % n1))
 
 
 def _size(a):
+    if getattr(a, 'flat_backing', None) is not None:
+        return to_z3(a.flat_backing.shape[0])
     return to_z3(a.shape[0]) if a.ndim == 1 else to_z3(a.shape[0]) * to_z3(a.shape[1])
 
 
@@ -335,7 +339,7 @@ class TTestNdarray:
 
 # ------------------------------------------------------------------ C06
 from pyvc.contracts import pointwise_count_hint
-from pyvc.lib import CNT
+from pyvc.lib import CNT, ok_patterns
 
 
 def find_app(term, name):
@@ -374,11 +378,11 @@ class PoissonSimulateCatalog:
         K = W.n
         i, j = z3.Ints('i!rq j!rq')
         return [z3.ForAll([i, j], z3.Implies(z3.And(0 <= i, i <= j, j < K), W.f((i,)) <= W.f((j,))),
-                          patterns=[z3.MultiPattern(W.f((i,)), W.f((j,)))]),
+                          patterns=ok_patterns([[W.f((i,)), W.f((j,))]])),
                 # every number in [0,1) must be placeable: the last cumulative weight reaches 1
                 W.f((K - 1,)) >= 1,
                 z3.ForAll([i], z3.Implies(z3.And(0 <= i, i < u.n), z3.And(u.f((i,)) >= 0, u.f((i,)) < 1)),
-                          patterns=[u.f((i,))])]
+                          patterns=ok_patterns([u.f((i,))]))]
 
     def ensures(c, r, num_events, sampling_weights, sim_fore, random_numbers):
         W, u = sampling_weights, random_numbers
@@ -416,3 +420,372 @@ class PoissonSimulateCatalog:
 def spec_sum(c, a):
     from pyvc.lib import sum_term
     return sum_term(c.L, a)
+
+
+# ------------------------------------------------------------------ C05 / C06: the Poisson consistency test
+from pyvc.contracts import LoopInv
+from pyvc.core import SymList
+from pyvc.lib import trunc_real, sum_term
+
+PLT = 'csep.core.poisson_evaluations._poisson_likelihood_test'
+PSIM = 'csep.core.poisson_evaluations._simulate_catalog'
+PJLL = 'csep.utils.stats.poisson_joint_log_likelihood_ndarray'
+
+
+def in_bin(W, k, ut):
+    return z3.And(z3.Or(k == 0, W.f((k - 1,)) <= ut), ut < W.f((k,)))
+
+
+def _psim_ensures_assume(c, r, num_events, sampling_weights, sim_fore, random_numbers):
+    """quantified form of the simulator's postcondition (modular use)"""
+    W, u = sampling_weights, random_numbers
+    K, n = W.shape[0], num_events
+    k = c.ctx.fresh_int('k!q')
+    t = z3.Int('i!cnt')
+    val = to_real(r.f((k,)))
+    cnt = CNT(z3.Lambda([t], in_bin(W, k, u.f((t,)))), to_z3(n))
+    yield 'sim[k] == count', z3.ForAll([k], z3.Implies(z3.And(0 <= k, k < to_z3(K)), val == z3.ToReal(cnt)), patterns=ok_patterns([r.f((k,))]))
+
+
+_orig_psim_ensures = PoissonSimulateCatalog.ensures
+
+
+def _psim_ensures(c, r, num_events, sampling_weights, sim_fore, random_numbers):
+    if c.mode == 'assume':
+        return _psim_ensures_assume(c, r, num_events, sampling_weights, sim_fore, random_numbers)
+    return _orig_psim_ensures(c, r, num_events, sampling_weights, sim_fore, random_numbers)
+
+
+PoissonSimulateCatalog.ensures = _psim_ensures
+
+
+def jll_spec(counts_fn, logb, E, K):
+    """sum over ALL bins of [count != 0 ? count*log(rate') : 0] - sum [count != 0 ? lgamma(count+1) : 0] - E
+    (= sum of log Poisson pmf, since a bin without events contributes -rate' and loggamma(1) = 0)"""
+    a = rsum(lambda k: z3.If(counts_fn(k) != 0, to_real(logb.f((k,))) * counts_fn(k), z3.RealVal(0)), K)
+    b = rsum(lambda k: z3.If(counts_fn(k) != 0, LOGGAMMA(counts_fn(k) + 1), z3.RealVal(0)), K)
+    return a - b - to_real(E)
+
+
+class PLTLoop(LoopInv):
+    """for idx in range(num_simulations): invariant - simulated_ll holds, for every simulation s done so far, the joint
+    log-likelihood of the catalog placed by exact inverse CDF from the s-th row of random numbers"""
+
+    def havoc(self, I, fr, i, it):
+        self.LLF = I.ctx.fresh_fun('sim_ll', z3.IntSort(), z3.RealSort())
+        LLF = self.LLF
+        fr.locals['simulated_ll'] = SymList(to_z3(i), lambda s: LLF(to_z3(s)), 'simulated_ll')
+        sim = fr.locals['sim_fore']
+        fresh = I.lib.fresh_arr('sim_havoc', sim.shape, 'float64')
+        sim.f = fresh.f
+
+    def sim_counts(self, I, fr, s):
+        W = fr.locals['sampling_weights']
+        u = fr.locals['random_numbers']
+        n = trunc_real(I.ctx, to_real(fr.locals['n_obs']))
+        t = z3.Int('i!cnt')
+        return lambda k: z3.ToReal(CNT(z3.Lambda([t], in_bin(W, k, u.f((s, t)))), n))
+
+    def spec_ll(self, I, fr, s):
+        logb, E = fr.locals['log_bin_expectations'], fr.locals['expected_forecast_count']
+        K = fr.locals['sampling_weights'].shape[0]
+        return jll_spec(self.sim_counts(I, fr, s), logb, E, K)
+
+    def inv(self, I, fr, i, it):
+        lst = fr.locals['simulated_ll']
+        n_l = to_z3(lst.n) if isinstance(lst, SymList) else z3.IntVal(len(lst))
+        yield 'one simulated statistic per simulation done', n_l == to_z3(i)
+        if isinstance(lst, list):
+            return
+        if self.mode == 'prove':
+            s = I.ctx.fresh_int('s!sk')
+            self.sk = s
+            calls = [x for x in I.ctx.ghost.get('calls', []) if x[0] == PJLL]
+            if calls:
+                # proof steps for the entry appended in this iteration (position i-1)
+                loc = calls[-1][2]
+                tef, wobs = loc['target_event_log_rates'], loc['target_observations']
+                cur = to_z3(i) - 1
+                sim = fr.locals['sim_fore']
+                cnt = self.sim_counts(I, fr, cur)
+                logb = fr.locals['log_bin_expectations']
+                K = fr.locals['sampling_weights'].shape[0]
+                s1, s2 = sum_term(I.lib, tef), sum_term(I.lib, Arr(wobs.shape, lambda ix: LOGGAMMA(to_real(wobs.f(ix)) + 1), 'float64'))
+                full1 = find_sum_over(I, s1)
+                full2 = find_sum_over(I, s2)
+                from pyvc.contracts import pointwise_sum_hint
+                b = Builder_like(I)
+                for nm, full, term in (('rates', full1, lambda k: z3.If(cnt(k) != 0, to_real(logb.f((k,))) * cnt(k), z3.RealVal(0))),
+                                       ('factorials', full2, lambda k: z3.If(cnt(k) != 0, LOGGAMMA(cnt(k) + 1), z3.RealVal(0)))):
+                    if full is not None:
+                        h = pointwise_sum_hint(b, 'summands of the new entry agree bin by bin (%s)' % nm, full, term, K)
+                        if h:
+                            yield h
+            cur = simp(to_z3(i) - 1)
+            yield 'earlier simulated statistics are kept', z3.Implies(
+                z3.And(0 <= s, s < cur), to_real(lst.f(s)) == self.spec_ll(I, fr, s))
+            yield 'the new simulated statistic is the joint log-likelihood of its inverse-CDF catalog', z3.Implies(
+                cur >= 0, to_real(lst.f(cur)) == self.spec_ll(I, fr, cur))
+        else:
+            s = z3.Int('s!inv')
+            yield 'spec', z3.ForAll([s], z3.Implies(z3.And(0 <= s, s < to_z3(i)), to_real(lst.f(s)) == self.spec_ll(I, fr, s)),
+                                    patterns=[lst.f(s)])
+
+
+class Builder_like:
+    def __init__(self, I):
+        self.I = I
+        self.ctx = I.ctx
+
+
+def find_sum_over(I, st):
+    """the full-index form SUM(lambda i. mask ? term : 0, n) that lemma L4_sum_over_selection equates with st"""
+    for f in reversed(I.ctx.facts):
+        if z3.is_eq(f) and f.arg(0).eq(st) and z3.is_app(f.arg(1)) and f.arg(1).decl().name() == 'SUM':
+            return f.arg(1)
+    return None
+
+
+class _PLT:
+    qualname = PLT
+    properties = ('C05', 'C06')
+    loops = {0: PLTLoop()}
+    normalize = False
+    rank = 1
+
+    @classmethod
+    def params(cls, c):
+        K, S, n = c.int('K'), c.int('num_simulations'), c.int('n_events')
+        c.ctx.assume(z3.And(K >= 1, S >= 1, n >= 0))
+        if cls.rank == 1:
+            F = c.arr('forecast', 'float64', n=K)
+            O = c.arr('observed', 'float64', n=K)
+        else:
+            n0, n1 = c.int('n_cells'), c.int('n_mags')
+            c.ctx.assume(z3.And(n0 >= 1, n1 >= 1))
+            F = c.arr2_flat('forecast', 'float64', (n0, n1))
+            O = c.arr2_flat('observed', 'float64', (n0, n1))
+            c.ctx.assume(K == F.flat_backing.n)
+        U = c.arr2('random_numbers', 'float64', (S, n))
+        return dict(forecast_data=F, observed_data=O, num_simulations=S, random_numbers=U, seed=None,
+                    use_observed_counts=True, verbose=False, normalize_likelihood=cls.normalize, _n=n)
+
+    @classmethod
+    def requires(cls, c, forecast_data, observed_data, num_simulations, random_numbers, seed, use_observed_counts, verbose,
+                 normalize_likelihood, _n):
+        F, O, U = forecast_data, observed_data, random_numbers
+        K = _size(F)
+        i, j = z3.Ints('i!rq j!rq')
+        tot = rsum(lambda k: _flat(F, k), K)
+        nobs = rsum(lambda k: _flat(O, k), K)
+        if F.ndim == 1:
+            pos = [z3.ForAll([i], z3.Implies(z3.And(0 <= i, i < K), z3.And(F.f((i,)) >= 0, O.f((i,)) >= 0)), patterns=[F.f((i,))]),
+                   z3.ForAll([i], z3.Implies(z3.And(0 <= i, i < K), O.f((i,)) >= 0), patterns=[O.f((i,))])]
+        else:
+            Ff, Of = F.flat_backing, O.flat_backing
+            pos = [z3.ForAll([i], z3.Implies(z3.And(0 <= i, i < K), z3.And(Ff.f((i,)) >= 0, Of.f((i,)) >= 0)), patterns=[Ff.f((i,))]),
+                   z3.ForAll([i], z3.Implies(z3.And(0 <= i, i < K), Of.f((i,)) >= 0), patterns=[Of.f((i,))])]
+        return pos + [
+            tot > 0,
+            # the observed counts are whole numbers: their total is the number of events, one random number per event
+            nobs == z3.ToReal(_n),
+            z3.ForAll([i, j], z3.Implies(z3.And(0 <= i, i < num_simulations, 0 <= j, j < _n),
+                                         z3.And(U.f((i, j)) >= 0, U.f((i, j)) < 1)), patterns=[U.f((i, j))])]
+
+    @classmethod
+    def ensures(cls, c, r, forecast_data, observed_data, num_simulations, random_numbers, seed, use_observed_counts, verbose,
+                normalize_likelihood, _n):
+        F, O = forecast_data, observed_data
+        K = _size(F)
+        yield 'returns (quantile, observed statistic, simulated statistics)', z3.BoolVal(isinstance(r, tuple) and len(r) == 3)
+        qs, obs_ll, sims = r
+        tot = rsum(lambda k: _flat(F, k), K)
+        nobs = rsum(lambda k: _flat(O, k), K)
+        if cls.normalize:
+            logb = Arr((K,), lambda ix: LOG(to_real(_flat(F, ix[0])) * (nobs / tot)), 'float64')
+            E = z3.ToReal(_n)
+        else:
+            logb = Arr((K,), lambda ix: LOG(to_real(_flat(F, ix[0]))), 'float64')
+            E = tot
+        Ok = lambda k: to_real(_flat(O, k))
+        calls = c.calls(PJLL)
+        if calls:
+            loc = calls[-1][1]
+            tef, wobs = loc['target_event_log_rates'], loc['target_observations']
+            s1 = sum_term(c.L, tef)
+            s2 = sum_term(c.L, Arr(wobs.shape, lambda ix: LOGGAMMA(to_real(wobs.f(ix)) + 1), 'float64'))
+            from pyvc.contracts import pointwise_sum_hint
+            for nm, st, term in (('rates', s1, lambda k: z3.If(Ok(k) != 0, to_real(logb.f((k,))) * Ok(k), z3.RealVal(0))),
+                                 ('factorials', s2, lambda k: z3.If(Ok(k) != 0, LOGGAMMA(Ok(k) + 1), z3.RealVal(0)))):
+                full = find_sum_over(c.I, st)
+                if full is not None:
+                    h = pointwise_sum_hint(c, 'observed statistic: summands agree bin by bin (%s)' % nm, full, term, K)
+                    if h:
+                        yield h
+        yield 'observed statistic == sum over bins of log Poisson pmf(observed | rate)', \
+            to_real(obs_ll) == jll_spec(Ok, logb, E, K)
+        yield 'one simulated statistic per simulation', z3.BoolVal(isinstance(sims, SymList)) if not isinstance(sims, list) else z3.BoolVal(False)
+        if isinstance(sims, SymList):
+            yield 'number of simulated statistics', to_z3(sims.n) == num_simulations
+            t = z3.Int('i!lam')
+            le = CNT(z3.Lambda([t], to_real(sims.f(t)) <= to_real(obs_ll)), num_simulations)
+            yield 'hint:quantile * num_simulations == count', to_real(qs) * z3.ToReal(num_simulations) == z3.ToReal(le)
+            yield 'hint:count within 0..num_simulations', z3.And(le >= 0, le <= num_simulations)
+            yield 'quantile == fraction of simulated statistics not exceeding the observed one', \
+                to_real(qs) * z3.ToReal(num_simulations) == z3.ToReal(le)
+            yield 'quantile in [0,1]', z3.And(to_real(qs) >= 0, to_real(qs) <= 1)
+
+
+@contract
+class PLT_plain(_PLT):
+    case = '1-d rates, injected random numbers, observed counts, not normalised (L/CL form)'
+    normalize = False
+
+
+@contract
+class PLT_norm(_PLT):
+    case = '1-d rates, injected random numbers, observed counts, normalised (S/M form)'
+    normalize = True
+
+
+@contract
+class PLT_plain2(_PLT):
+    case = '2-d rates (space x magnitude), injected random numbers, observed counts, not normalised (CL form)'
+    normalize = False
+    rank = 2
+
+
+# ------------------------------------------------------------------ modular use of the Poisson consistency test
+def _plt_accepts(cls):
+    def accepts(c, forecast_data, observed_data, num_simulations=1000, random_numbers=None, seed=None,
+                use_observed_counts=True, verbose=True, normalize_likelihood=False):
+        return (isinstance(forecast_data, Arr) and forecast_data.ndim == cls.rank and random_numbers is not None
+                and use_observed_counts is True and normalize_likelihood is cls.normalize and
+                (cls.rank == 1 or getattr(forecast_data, 'flat_backing', None) is not None))
+    return accepts
+
+
+def _plt_result(cls):
+    def result(c, forecast_data, observed_data, num_simulations=1000, random_numbers=None, seed=None,
+               use_observed_counts=True, verbose=True, normalize_likelihood=False):
+        S = to_z3(num_simulations)
+        LLF = c.ctx.fresh_fun('plt_sims', z3.IntSort(), z3.RealSort())
+        return (c.ctx.fresh_real('plt_qs'), c.ctx.fresh_real('plt_obs_ll'), SymList(S, lambda s: LLF(to_z3(s)), 'simulated_ll'))
+    return result
+
+
+def _plt_requires_call(cls):
+    orig = cls.requires.__func__
+
+    def requires(kls, c, forecast_data, observed_data, num_simulations=1000, random_numbers=None, seed=None,
+                 use_observed_counts=True, verbose=True, normalize_likelihood=False, _n=None):
+        if _n is None:
+            _n = to_z3(random_numbers.shape[1])
+        return orig(kls, c, forecast_data, observed_data, num_simulations, random_numbers, seed, use_observed_counts, verbose,
+                    normalize_likelihood, _n) + [to_z3(num_simulations) >= 1]
+    return classmethod(requires)
+
+
+def _plt_ensures_call(cls):
+    orig = cls.ensures.__func__
+
+    def ensures(kls, c, r, forecast_data, observed_data, num_simulations=1000, random_numbers=None, seed=None,
+                use_observed_counts=True, verbose=True, normalize_likelihood=False, _n=None):
+        if _n is None:
+            _n = to_z3(random_numbers.shape[1])
+        for item in orig(kls, c, r, forecast_data, observed_data, num_simulations, random_numbers, seed, use_observed_counts,
+                         verbose, normalize_likelihood, _n):
+            if c.mode == 'assume' and item[0].startswith('hint:'):
+                continue
+            yield item
+    return classmethod(ensures)
+
+
+for _k in (PLT_plain, PLT_norm, PLT_plain2):
+    _k.accepts = _plt_accepts(_k)
+    _k.result = _plt_result(_k)
+    _k.requires = _plt_requires_call(_k)
+    _k.ensures = _plt_ensures_call(_k)
+
+
+def _abstract_forecast(c, rank, n0=None, n1=None):
+    """a gridded forecast as the Poisson tests read it: data (2-d), spatial_counts(), magnitude_counts(), magnitudes, name"""
+    from pyvc.core import Lam
+    n0 = n0 if n0 is not None else c.int('n_cells')
+    n1 = n1 if n1 is not None else c.int('n_mags')
+    c.ctx.assume(z3.And(n0 >= 1, n1 >= 1))
+    data = c.arr2_flat('rates', 'float64', (n0, n1))
+    sc = c.arr('spatial_rates', 'float64', n=n0)
+    mc = c.arr('magnitude_rates', 'float64', n=n1)
+    mags = c.arr('magnitudes', 'float64', n=n1)
+    region = c.obj(None, magnitudes=mags)
+    fc = c.obj(None, data=data, spatial_counts=Lam(lambda *a, **k: sc), magnitude_counts=Lam(lambda *a, **k: mc),
+               magnitudes=mags, name='fc', region=region)
+    return fc, data, sc, mc, mags, n0, n1
+
+
+def public_poisson_test(fname, resname, which, normalize):
+    """which in {'data', 'spatial', 'magnitude'}: the arrays the test must hand to _poisson_likelihood_test"""
+    class Pub:
+        qualname = 'csep.core.poisson_evaluations.' + fname
+        case = 'abstract forecast / catalog, injected random numbers'
+        properties = ('C05', 'C06')
+
+        def params(c):
+            from pyvc.core import Lam
+            fc, data, sc, mc, mags, n0, n1 = _abstract_forecast(c, 2)
+            S, n = c.int('num_simulations'), c.int('n_events')
+            c.ctx.assume(z3.And(S >= 1, n >= 0))
+            obs2 = c.arr2_flat('obs_counts', 'float64', (n0, n1))
+            obs_s = c.arr('obs_spatial', 'float64', n=n0)
+            obs_m = c.arr('obs_magnitude', 'float64', n=n1)
+            asked = {}
+
+            def magnitude_counts(mag_bins=None, **kw):
+                asked['mag_bins'] = mag_bins
+                return obs_m
+            cat = c.obj(None, spatial_counts=Lam(lambda *a, **k: obs_s), spatial_magnitude_counts=Lam(lambda *a, **k: obs2),
+                        magnitude_counts=Lam(magnitude_counts), name='cat', region=c.obj(None, magnitudes=mags))
+            U = c.arr2('random_numbers', 'float64', (S, n))
+            return dict(gridded_forecast=fc, observed_catalog=cat, num_simulations=S, seed=None, random_numbers=U, verbose=False,
+                        _v=dict(data=data, sc=sc, mc=mc, obs2=obs2, obs_s=obs_s, obs_m=obs_m, asked=asked, mags=mags, n=n))
+
+        def requires(c, gridded_forecast, observed_catalog, num_simulations, seed, random_numbers, verbose, _v):
+            F, O = {'data': (_v['data'], _v['obs2']), 'spatial': (_v['sc'], _v['obs_s']), 'magnitude': (_v['mc'], _v['obs_m'])}[which]
+            return _PLT.requires.__func__(_PLT, c, F, O, num_simulations, random_numbers, None, True, False, normalize, _v['n'])
+
+        def ensures(c, r, gridded_forecast, observed_catalog, num_simulations, seed, random_numbers, verbose, _v):
+            from pyvc.core import Obj
+            F, O = {'data': (_v['data'], _v['obs2']), 'spatial': (_v['sc'], _v['obs_s']), 'magnitude': (_v['mc'], _v['obs_m'])}[which]
+            K = _size(F)
+            tot = rsum(lambda k: _flat(F, k), K)
+            nobs = rsum(lambda k: _flat(O, k), K)
+            if normalize:
+                logb = Arr((K,), lambda ix: LOG(to_real(_flat(F, ix[0])) * (nobs / tot)), 'float64')
+                E = z3.ToReal(_v['n'])
+            else:
+                logb = Arr((K,), lambda ix: LOG(to_real(_flat(F, ix[0]))), 'float64')
+                E = tot
+            yield 'returns an evaluation result', z3.BoolVal(isinstance(r, Obj))
+            calls = c.calls(PLT)
+            yield 'the statistic comes from the Poisson consistency test kernel (one call)', z3.BoolVal(len(calls) == 1)
+            yield 'observed statistic == sum over bins of log Poisson pmf(count | rate) for the %s' % (
+                {'data': 'full space-magnitude rates', 'spatial': 'spatial marginal scaled to the observed number of events',
+                 'magnitude': 'magnitude marginal scaled to the observed number of events'}[which]), \
+                to_real(r.fields.get('observed_statistic')) == jll_spec(lambda k: to_real(_flat(O, k)), logb, E, K)
+            if calls:
+                qs, obs_ll, sims = calls[0][2]
+                yield 'quantile and test distribution are those of the kernel', z3.BoolVal(
+                    r.fields.get('quantile') is qs and r.fields.get('test_distribution') is sims)
+                yield 'every simulation uses the observed number of events', z3.BoolVal(calls[0][1].get('use_observed_counts') is True)
+            if which == 'magnitude':
+                yield 'observed magnitude counts use the forecast magnitude edges', z3.BoolVal(_v['asked'].get('mag_bins') is _v['mags'])
+            yield 'name / status', z3.BoolVal(r.fields.get('name') == resname and r.fields.get('status') == 'normal')
+    Pub.__name__ = 'Pub_' + fname
+    return Pub
+
+
+from pyvc.contracts import REG as _REG
+_REG.add(public_poisson_test('conditional_likelihood_test', 'Poisson CL-Test', 'data', False))
+_REG.add(public_poisson_test('spatial_test', 'Poisson S-Test', 'spatial', True))
+_REG.add(public_poisson_test('magnitude_test', 'Poisson M-Test', 'magnitude', True))
